@@ -757,8 +757,13 @@ def fuse(
             pipeline2.config.back_key_function(out_key).args[0]
         )
 
+    function1 = _cast_to_declared_dtype(
+        pipeline1.config.function,
+        getattr(primitive_op1.target_array, "dtype", None),
+    )
+
     def fused_func(*args):
-        return pipeline2.config.function(pipeline1.config.function(*args))
+        return pipeline2.config.function(function1(*args))
 
     read_proxies = pipeline1.config.reads_map
     write_proxies = pipeline2.config.writes_map
@@ -863,6 +868,30 @@ def fuse_multiple(
     )
 
 
+def _cast_to_declared_dtype(function, dtype):
+    """Wrap the block function of a fused predecessor so that its result has the dtype of the
+    array it produces.
+
+    Storage casts a block to the array's dtype when it is written, so without this a fused
+    successor would see different values than it reads back in the unfused computation.
+    """
+    if (
+        dtype is None
+        or getattr(dtype, "fields", None) is not None
+        or inspect.isgeneratorfunction(function)
+    ):
+        return function
+
+    def function_with_cast(*args):
+        result = function(*args)
+        result_dtype = getattr(result, "dtype", None)
+        if result_dtype is not None and result_dtype != dtype:
+            result = result.astype(dtype)
+        return result
+
+    return function_with_cast
+
+
 def fuse_blockwise_specs(
     bw_spec: BlockwiseSpec, *predecessor_bw_specs: BlockwiseSpec
 ) -> BlockwiseSpec:
@@ -873,9 +902,12 @@ def fuse_blockwise_specs(
     predecessor_back_key_functions_dict: dict[str, KeyFunction] = {}
     predecessor_functions_dict: dict[str, Callable[..., Any]] = {}
     for bws in predecessor_bw_specs:
-        for name in bws.writes_map.keys():
+        for name, write_proxy in bws.writes_map.items():
             predecessor_back_key_functions_dict[name] = bws.back_key_function
-            predecessor_functions_dict[name] = bws.function
+            predecessor_functions_dict[name] = _cast_to_declared_dtype(
+                bws.function,
+                getattr(getattr(write_proxy, "array", None), "dtype", None),
+            )
 
     fused_key_func = make_fused_back_key_function(
         bw_spec.back_key_function, predecessor_back_key_functions_dict
